@@ -39,6 +39,29 @@ class CountingSource(DataSource):
         return None
 
 
+class SwitchingSource(CountingSource):
+    """A source that re-binds its own `read` after k frames (a live phase followed by a cached phase - the state pattern
+    auditok's own recorder uses): the handle used for the first phase is stale afterwards and reports end of data."""
+
+    def __init__(self, frames, switch_after):
+        super().__init__(frames)
+        self.switch_after = switch_after
+        self.stale_calls = 0
+        self.read = self._read_live
+
+    def _read_live(self):
+        if self.reads - self.eos_returns >= self.switch_after and self.read != self._read_live:
+            self.stale_calls += 1
+            return None  # the stale handle: nothing more comes from here
+        f = CountingSource.read(self)
+        if self.reads - self.eos_returns >= self.switch_after:
+            self.read = self._read_cached
+        return f
+
+    def _read_cached(self):
+        return CountingSource.read(self)
+
+
 class _UpperValidator(DataValidator):
     def is_valid(self, frame):
         return frame.isupper()
@@ -122,6 +145,27 @@ def _mk_seq_frames(v):
     return [("LOUD%d" % i) if x else ("quiet%d" % i) for i, x in enumerate(v)], (lambda f: f[0] == "L")
 
 
+class _Packet:
+    """A frame whose __eq__ answers True for None when its payload is missing (a lost packet record): still a frame."""
+
+    __slots__ = ("i", "payload")
+
+    def __init__(self, i, payload):
+        self.i, self.payload = i, payload
+
+    def __eq__(self, other):
+        if other is None:
+            return self.payload is None
+        return isinstance(other, _Packet) and (self.i, self.payload) == (other.i, other.payload)
+
+    def __hash__(self):
+        return hash(self.i)
+
+
+def _mk_eq_none(v):
+    return [_Packet(i, ("data%d" % i) if x else None) for i, x in enumerate(v)], (lambda f: f.payload is not None)
+
+
 FRAME_KINDS = {
     "char": _mk_char,
     "tuple": _mk_tuple,
@@ -134,6 +178,7 @@ FRAME_KINDS = {
     "truthy_str": _mk_truthy_str,
     "none_verdict": _mk_none_verdict,
     "seq_frames": _mk_seq_frames,
+    "eq_none": _mk_eq_none,
 }
 KIND_NAMES = tuple(FRAME_KINDS)
 DELIVERY = ("list", "generator", "callback")
@@ -167,7 +212,10 @@ def make_tokenizer(validator, params, how="int"):
 
 FAULTS = {"InterruptedError": InterruptedError, "BlockingIOError": BlockingIOError, "OSError": OSError, "TimeoutError": TimeoutError,
           "KeyboardInterrupt": KeyboardInterrupt, "RuntimeError": RuntimeError, "EOFError": EOFError, "ValueError": ValueError,
-          "StopIteration": StopIteration, "MemoryError": MemoryError}
+          "StopIteration": StopIteration, "MemoryError": MemoryError,
+          # the errors a signal or a non-blocking descriptor really produces carry an errno
+          "OSError-EINTR": (lambda msg: OSError(4, msg)), "OSError-EAGAIN": (lambda msg: OSError(11, msg)),
+          "InterruptedError-EINTR": (lambda msg: InterruptedError(4, msg))}
 
 
 def deliver(tokenizer, source, delivery, on_token=None, out=None):
@@ -209,7 +257,7 @@ def parse_delivery(delivery):
     mode, prior, use, j = parts[0], None, None, 0
     for p in parts[1:]:
         k, _, val = p.partition("=")
-        if k in ("fault", "vfault", "dress", "gen"):
+        if k in ("fault", "vfault", "dress", "gen", "clone", "threads", "switch"):
             continue
         if k == "prior":
             prior = tuple(1 if c == "A" else 0 for c in val)
@@ -273,6 +321,58 @@ def run(v, params, kind="tuple", delivery="list", on_token=None):
     opts = dict(p.partition("=")[::2] for p in delivery.split("|")[1:])
     how = opts.get("dress", "int")
     GEN_FLAG[0] = {"1": 1, "np": np.True_, "int8": np.int8(1)}.get(opts.get("gen"), True)
+    if "switch" in opts and not (prior is not None or "fault" in opts or "vfault" in opts):
+        src = SwitchingSource(frames, int(opts["switch"]))
+        tk = make_tokenizer(validator, params, how)
+        tokens = deliver(tk, src, mode, on_token)
+        return frames, tokens, src
+    if "clone" in opts and not ("fault" in opts or "vfault" in opts):
+        # the tokenizer in use is a COPY of a configured one (copy.copy / copy.deepcopy / a pickle round trip): same parameters,
+        # same mode; and what the original delivered earlier stays what it was
+        import copy
+        import pickle
+
+        original = make_tokenizer(validator, params, how)
+        held = None
+        if prior is not None and opts["clone"].endswith("+original-used-first"):
+            frames1, _ = FRAME_KINDS[kind](prior)
+            res = original.tokenize(CountingSource(frames1))
+            held = (res, [(list(t[0]), t[1], t[2]) for t in res])
+        kind_ = opts["clone"].split("+")[0]
+        if kind_ == "pickle":
+            try:
+                tk = pickle.loads(pickle.dumps(original))
+            except Exception:
+                tk = copy.deepcopy(original)  # a lambda validator cannot be pickled: that is the caller's business
+        else:
+            tk = getattr(copy, kind_)(original)
+        src = CountingSource(frames)
+        tokens = deliver(tk, src, mode, on_token)
+        if held is not None:
+            res, snap = held
+            if len(res) != len(snap) or any(len(a[0]) != len(b[0]) or tuple(a[1:]) != tuple(b[1:]) or any(x is not y for x, y in zip(a[0], b[0])) for a, b in zip([tuple(t) for t in res], snap)):
+                raise EarlierResultAltered(f"what the ORIGINAL tokenizer returned changed when its copy was used ({len(snap)} tokens then, {len(res)} now)")
+        return frames, tokens, src
+    if opts.get("threads") == "alternate" and mode == "generator" and prior is None:
+        # successive next() calls on one generator come from two long-lived threads, one call at a time (a blocking generator
+        # driven through an executor): no concurrency, only another thread
+        from concurrent.futures import ThreadPoolExecutor
+
+        tk = make_tokenizer(validator, params, how)
+        src = CountingSource(frames)
+        tokens = []
+        with ThreadPoolExecutor(1) as ea, ThreadPoolExecutor(1) as eb:
+            ea.submit(lambda: None).result(), eb.submit(lambda: None).result()
+            g = eb.submit(tk.tokenize, src, None, True).result()
+            k = 0
+            while True:
+                try:
+                    t = (ea if k % 2 == 0 else eb).submit(next, g).result()
+                except StopIteration:
+                    break
+                tokens.append(tuple(t))
+                k += 1
+        return frames, tokens, src
     if use == "collected-mid-run" and prior is not None:
         # the earlier generator of this tokenizer was advanced, then abandoned inside a reference cycle; the cyclic collector
         # finalises it at an arbitrary moment - here: inside the source's read(), in the middle of the second run
